@@ -896,14 +896,16 @@ func rstr(r *rand.Rand, max int) string {
 }
 
 // setGet: set through the typed constructor, read back through the accessor (directly and after a wire trip).
-func setGet(r *mon.Rec, idx int) {
-	rng := r.Rand("setget", idx)
-	r.Eval(1)
-	p := &dhcpv4.DHCPv4{Options: dhcpv4.Options{}, ClientHWAddr: make([]byte, 6)}
-	var name, want string
-	var get func(p *dhcpv4.DHCPv4) string
+// sgBuild: one packet with one kind of option set through its typed constructor, the expected reading and the reader
+func sgBuild(rng *rand.Rand, force int) (p *dhcpv4.DHCPv4, name, want string, get func(p *dhcpv4.DHCPv4) string, kind int) {
+	p = &dhcpv4.DHCPv4{Options: dhcpv4.Options{}, ClientHWAddr: make([]byte, 6)}
 	ipsEq := func(l []net.IP) string { return gotIPs(l) }
-	switch k := rng.IntN(22); k {
+	k := rng.IntN(22)
+	if force >= 0 {
+		k = force
+	}
+	kind = k
+	switch k {
 	case 0, 1, 2:
 		ip := rip(rng)
 		name = []string{"OptBroadcastAddress", "OptRequestedIPAddress", "OptServerIdentifier"}[k]
@@ -943,7 +945,11 @@ func setGet(r *mon.Rec, idx int) {
 			m := net.CIDRMask(ones, 32)
 			ip = ip.Mask(m)
 			gw := rip(rng)
-			rs = append(rs, &dhcpv4.Route{Dest: &net.IPNet{IP: ip, Mask: m}, Router: gw})
+			dip := ip
+			if rng.IntN(2) == 0 { // the destination in its 16-octet form (net.ParseIP, net.IPv4 give that one)
+				dip = net.IPv4(ip[0], ip[1], ip[2], ip[3])
+			}
+			rs = append(rs, &dhcpv4.Route{Dest: &net.IPNet{IP: dip, Mask: m}, Router: gw})
 			w = append(w, fmt.Sprintf("%x/%d>%x", []byte(ip), ones, []byte(gw.To4())))
 		}
 		name = "OptClasslessStaticRoute"
@@ -1079,6 +1085,30 @@ func setGet(r *mon.Rec, idx int) {
 			}
 			return fmt.Sprintf("%q %q %x %x", ds.Labels, p.UserClass(), ro.Get(dhcpv4.AgentCircuitIDSubOption), ro.Get(dhcpv4.AgentRemoteIDSubOption))
 		}
+	}
+	return p, name, want, get, kind
+}
+
+func setGet(r *mon.Rec, idx int) {
+	rng := r.Rand("setget", idx)
+	r.Eval(1)
+	p, name, want, get, kind := sgBuild(rng, -1)
+	if idx%2 == 1 {
+		// before the packet is read, the program builds, reads and encodes other packets with options of the same and of
+		// other kinds (a server answering several clients): what was set in THIS packet is what is read from it
+		for k := 0; k < 1+idx%3; k++ {
+			orng := r.Rand("setget.other", idx*4+k)
+			force := -1
+			if k == 0 {
+				force = kind // the same kind of option, other values
+			}
+			mon.Guard(func() {
+				q, _, _, gq, _ := sgBuild(orng, force)
+				_ = gq(q)
+				_ = q.ToBytes()
+			})
+		}
+		r.Count("setget.other_packets_built_in_between", 1)
 	}
 	rp := sgReplay{idx}
 	var g1, g2 string
